@@ -73,7 +73,7 @@ def main():
         return res
     finally:
         sh(["git", "-C", "/repo", "worktree", "remove", "--force", wt])
-        sh(["bash", "-c", "rm -rf /verif/.work/coq.*sv_%s_%s*" % (pid, k)])
+        sh(["bash", "-c", "rm -rf /verif/.work/coq.*sv_%s_%s* /verif/.work/evidence.*sv_%s_%s*" % (pid, k, pid, k)])
         print(json.dumps(res, indent=1))
 
 
